@@ -275,12 +275,12 @@ def check_accessor_native(p, profile='debug'):
 def check(run):
     funcs, info = engine.load_mir('ibig')
     run.mir_info.append(info)
-    rejected_in_lower_dimensions(run, funcs)
-    accessors(run, funcs)
-    combinatorics(run, funcs, 6 if run.tier == 'quick' else 40)
+    run.guard(rejected_in_lower_dimensions, funcs)
+    run.guard(accessors, funcs)
+    run.guard(combinatorics, funcs, 6 if run.tier == 'quick' else 40)
     from . import staterules as SR
-    SR.cell_transitions(run, funcs, 'C15')
-    SR.cell_clone(run, funcs, 'C15')            # face data is still present after clone (unchecked access relies on it)
+    run.guard(SR.cell_transitions, funcs, 'C15')
+    run.guard(SR.cell_clone, funcs, 'C15')            # face data is still present after clone (unchecked access relies on it)
     run.assume('planarity, convexity and equality of polygon area with the face integral are float geometry: outside')
     return run.finish(LEVEL, EXPLANATION, trusted=['rustc -Zunpretty=mir', 'z3 5.1.0', 'std Vec/slice/iterator models of mirsym'])
 
